@@ -130,3 +130,9 @@ Theorem C19_tee_outputs_logged : forall (s : tst) (o : top) (s' : tst) (r : tres
   end.
 Proof. exact tee_outputs_logged. Qed.
 Print Assumptions C19_tee_outputs_logged.
+
+Theorem C19_tee_no_deadlock : forall (mode : nat) (source : list Z) (n : nat) (ops : list top) (c : nat),
+  let s := trun mode source n ops in
+  tphase s c <> TIdle -> exists c', snd (fst (tstep s (TResume c'))) <> TRejected.
+Proof. exact tee_no_deadlock. Qed.
+Print Assumptions C19_tee_no_deadlock.
